@@ -419,8 +419,8 @@ def run_case(prop, name, params, budget=None):
             for cand in tidy_values(vals):
                 try:
                     cobs = run_concrete(fn, domain, params, cand, pr.decisions_choices if hasattr(pr, "decisions_choices") else _choices(pr))
-                except OverflowError:
-                    continue
+                except (OverflowError, ZeroDivisionError):
+                    continue  # this rounding of the model leaves the oracle's convergence domain
                 except HarnessError:
                     raise
                 bad = [(co, why) for co, why in concrete_failures(cobs) if co.label == o.label]
